@@ -1,283 +1,64 @@
-(* The byte level of property C13: RtrCodec::decode is monotone in the buffer
-   (bytes arriving later never change what an earlier complete PDU decodes to),
-   hence the PDUs delivered by the Framed loop do not depend on TCP
-   fragmentation; every well-framed PDU is consumed (progress). *)
+(* The byte level of property C13.  The codec is the C03 model Model/Rtr.v; its
+   theorems (Proofs/Rtr.v: no panic, consumes input, complete frames are decided,
+   "need more" only when the frame is incomplete, fragmentation invariance) are
+   used here for the client: when the client goes idle nothing complete is left
+   in its buffer, and what it processed does not depend on the TCP segmentation. *)
 From Coq Require Import List Arith NArith Bool Lia ZifyBool ZifyNat ZifyN.
-From RB Require Import Base.Val Model.Rpki Model.RtrClient.
+From RB Require Import Base.Val Base.Bytes Model.Rpki Model.RtrClient Spec.WireSpec Proofs.Rtr.
+From RB Require Model.Stream Model.Rtr.
 Import ListNotations.
 Open Scope N_scope.
 
-Lemma firstn_app_le {A} : forall n (l m : list A), (n <= length l)%nat -> firstn n (l ++ m) = firstn n l.
-Proof. intros n l m H. rewrite firstn_app. replace (n - length l)%nat with 0%nat by lia. cbn. apply app_nil_r. Qed.
-
-Lemma skipn_app_le {A} : forall n (l m : list A), (n <= length l)%nat -> skipn n (l ++ m) = skipn n l ++ m.
-Proof. intros n l m H. rewrite skipn_app. replace (n - length l)%nat with 0%nat by lia. reflexivity. Qed.
-
-Ltac dbody b :=
-  destruct b as [|?a [|?b [|?c [|?d ?rest]]]]; try discriminate.
-
-Lemma from_bytes_mono : forall buf more m len,
-  from_bytes buf = Some (m, len) ->
-  from_bytes (buf ++ more) = Some (m, len) /\ len <= N.of_nat (length buf).
+(* whatever Stream.drain leaves pending was left by a decoder call that asked for more bytes *)
+Lemma drain_pending_need : forall {M E : Type} (dec : list N -> Stream.dres M E) fuel buf evs rest,
+  Stream.drain dec fuel buf = Some (evs, Stream.Pending rest) -> exists b, dec b = Stream.DNeed rest.
 Proof.
-  intros buf more m len H.
-  destruct buf as [|ver [|ty [|s1 [|s2 [|l1 [|l2 [|l3 [|l4 body]]]]]]]]; try discriminate.
-  cbn [app]. unfold from_bytes in *.
-  set (L := be32 [l1; l2; l3; l4]) in *.
-  destruct (N.of_nat (length (ver :: ty :: s1 :: s2 :: l1 :: l2 :: l3 :: l4 :: body)) <? L) eqn:EL; [discriminate|].
-  assert (EL' : (N.of_nat (length (ver :: ty :: s1 :: s2 :: l1 :: l2 :: l3 :: l4 :: body ++ more)) <? L) = false).
-  { cbn [length] in *. rewrite app_length. lia. }
-  rewrite EL'.
-  assert (HL : forall x, Some (x, L) = Some (m, len) -> len <= N.of_nat (length (ver :: ty :: s1 :: s2 :: l1 :: l2 :: l3 :: l4 :: body))).
-  { intros x E. inversion E; subst. lia. }
-  destruct (ty =? 0).
-  { dbody body. cbn [app]. split; [exact H|eapply HL; exact H]. }
-  destruct (ty =? 1).
-  { dbody body. cbn [app]. split; [exact H|eapply HL; exact H]. }
-  destruct (ty =? 2); [split; [exact H|eapply HL; exact H]|].
-  destruct (ty =? 3); [split; [exact H|eapply HL; exact H]|].
-  destruct (ty =? 4).
-  { dbody body. cbn [app]. destruct ((length rest <? 8)%nat) eqn:E8; [discriminate|].
-    apply Nat.ltb_ge in E8.
-    replace ((length (rest ++ more) <? 8)%nat) with false by (symmetry; apply Nat.ltb_ge; rewrite app_length; lia).
-    rewrite !skipn_app_le, !firstn_app_le by (rewrite ?skipn_length; lia).
-    split; [exact H|eapply HL; exact H]. }
-  destruct (ty =? 6).
-  { dbody body. cbn [app]. destruct ((length rest <? 20)%nat) eqn:E8; [discriminate|].
-    apply Nat.ltb_ge in E8.
-    replace ((length (rest ++ more) <? 20)%nat) with false by (symmetry; apply Nat.ltb_ge; rewrite app_length; lia).
-    rewrite !skipn_app_le, !firstn_app_le by (rewrite ?skipn_length; lia).
-    split; [exact H|eapply HL; exact H]. }
-  destruct (ty =? 7).
-  { dbody body. cbn [app]. destruct (1 <=? ver).
-    - destruct ((length rest <? 12)%nat) eqn:E8; [discriminate|].
-      apply Nat.ltb_ge in E8.
-      replace ((length (rest ++ more) <? 12)%nat) with false by (symmetry; apply Nat.ltb_ge; rewrite app_length; lia).
-      rewrite !skipn_app_le, !firstn_app_le by (rewrite ?skipn_length; lia).
-      split; [exact H|eapply HL; exact H].
-    - split; [exact H|eapply HL; exact H]. }
-  destruct (ty =? 8); [split; [exact H|eapply HL; exact H]|].
-  destruct (ty =? 10); [split; [exact H|eapply HL; exact H]|].
-  discriminate.
+  intros M E dec. induction fuel as [|fuel IH]; intros buf evs rest H; [discriminate|].
+  cbn [Stream.drain] in H. destruct (dec buf) as [m r|r|e r|] eqn:D; try discriminate.
+  - destruct (Nat.eqb (length r) (length buf)); [discriminate|].
+    destruct (Stream.drain dec fuel r) as [[evs' st']|] eqn:D2; [|discriminate].
+    inversion H; subst. eapply IH. exact D2.
+  - inversion H; subst. exists buf. exact D.
 Qed.
 
-Lemma from_bytes_unknown : forall ver ty s1 s2 l1 l2 l3 l4 body,
-  known_type ty = false -> from_bytes (ver :: ty :: s1 :: s2 :: l1 :: l2 :: l3 :: l4 :: body) = None.
+(* C13 "the client makes progress on every well-formed PDU stream, including PDU types it
+   does not use": with the current codec, whenever the Framed loop stops and waits for more
+   bytes, what is left in the buffer does not start with a complete PDU - every complete PDU
+   (of a used type or not) has been consumed *)
+Theorem rtr_idle_buffer_incomplete : forall fuel buf evs rest,
+  Stream.drain Rtr.rtr_decode fuel buf = Some (evs, Stream.Pending rest) -> ~ rtr_complete rest.
 Proof.
-  intros ver ty s1 s2 l1 l2 l3 l4 body K. unfold known_type in K. cbn [existsb] in K.
-  repeat (apply orb_false_iff in K; destruct K as [?E K]).
-  unfold from_bytes. destruct (_ <? _); [reflexivity|].
-  rewrite E, E0, E1, E2, E3, E4, E5, E6, E7. reflexivity.
+  intros fuel buf evs rest H. destruct (drain_pending_need Rtr.rtr_decode fuel buf evs rest H) as [b D].
+  apply (C03_rtr_need_only_if_incomplete b rest D).
 Qed.
 
-Lemma skippable_mono : forall buf more len,
-  skippable buf = Some len ->
-  skippable (buf ++ more) = Some len /\ from_bytes (buf ++ more) = None /\ from_bytes buf = None
-  /\ 8 <= len /\ len <= N.of_nat (length buf).
+(* the same at the level of the client: after a TCP segment, a live client's buffer holds no complete PDU *)
+Theorem client_idle_buffer_incomplete : forall c st t bytes st' t' out,
+  c_done st = false -> c_open st = true ->
+  client_event fixed c st t (EFeed c bytes) = (st', t', out) ->
+  c_done st' = true \/ ~ rtr_complete (c_buf st').
 Proof.
-  intros buf more len H.
-  destruct buf as [|ver [|ty [|s1 [|s2 [|l1 [|l2 [|l3 [|l4 body]]]]]]]]; try discriminate.
-  cbn [app]. unfold skippable in *.
-  set (L := be32 [l1; l2; l3; l4]) in *.
-  destruct (known_type ty) eqn:K; [discriminate|]. cbn [negb andb] in *.
-  destruct (8 <=? L) eqn:E8; [|discriminate]. cbn [andb] in *.
-  destruct (L <=? N.of_nat (length (ver :: ty :: s1 :: s2 :: l1 :: l2 :: l3 :: l4 :: body))) eqn:EL; [|discriminate].
-  inversion H; subst len.
-  replace (L <=? N.of_nat (length (ver :: ty :: s1 :: s2 :: l1 :: l2 :: l3 :: l4 :: body ++ more))) with true
-    by (cbn [length] in *; rewrite app_length; lia).
-  split; [reflexivity|]. split; [apply from_bytes_unknown; exact K|]. split; [apply from_bytes_unknown; exact K|]. lia.
+  intros c st t bytes st' t' out Hd Ho H. unfold client_event in H. rewrite Hd, Ho in H.
+  cbn [codec fixed fx_skip] in H.
+  destruct (Stream.drain Rtr.rtr_decode (S (length (c_buf st ++ bytes))) (c_buf st ++ bytes)) as [[evs ds]|] eqn:D.
+  - destruct (apply_evs fixed c evs st t []) as [[[st2 t2] sent] ended].
+    destruct ended.
+    + left. unfold finish_session in H. inversion H; subst. reflexivity.
+    + right. destruct ds as [rest|].
+      * pose proof (rtr_idle_buffer_incomplete _ _ _ _ D) as NC.
+        unfold fire_permit in H. destruct (c_permit (with_buf st2 rest) && c_eod (with_buf st2 rest)); inversion H; subst; exact NC.
+      * unfold fire_permit in H. destruct (c_permit (with_buf st2 []) && c_eod (with_buf st2 [])); inversion H; subst;
+          cbn [c_buf with_buf with_permit]; intros [l [Hl _]]; discriminate.
+  - left. unfold finish_session in H. inversion H; subst. reflexivity.
 Qed.
 
-(* enough fuel: the result does not depend on it *)
-Lemma decode_fuel : forall fx f1 f2 buf, (length buf <= f1)%nat -> (length buf <= f2)%nat ->
-  decode fx f1 buf = decode fx f2 buf.
-Proof.
-  induction f1 as [|f1 IH]; intros f2 buf H1 H2.
-  - destruct buf; [|cbn in H1; lia]. destruct f2; cbn; destruct (fx_skip fx); reflexivity.
-  - destruct f2 as [|f2].
-    + destruct buf; [cbn; destruct (fx_skip fx); reflexivity|cbn in H2; lia].
-    + cbn [decode]. destruct (from_bytes buf) as [[m len]|]; [reflexivity|].
-      destruct (fx_skip fx); [|reflexivity].
-      destruct (skippable buf) as [len|] eqn:S; [|reflexivity].
-      destruct (skippable_mono buf [] len S) as [_ [_ [_ [L8 LL]]]].
-      apply IH; rewrite skipn_length; lia.
-Qed.
-
-(* bytes arriving later do not change a decoded PDU ... *)
-Lemma decode_some_mono : forall fx f buf more m rest, (length buf <= f)%nat ->
-  decode fx f buf = (Some m, rest) ->
-  decode fx (f + length more) (buf ++ more) = (Some m, rest ++ more).
-Proof.
-  induction f as [|f IH]; intros buf more m rest Hf H.
-  - destruct buf; [|cbn in Hf; lia]. cbn in H. destruct (fx_skip fx); discriminate.
-  - cbn [decode plus] in *. destruct (from_bytes buf) as [[m' len]|] eqn:FB.
-    + inversion H; subst. destruct (from_bytes_mono buf more m len FB) as [FB' Hl]. rewrite FB'.
-      rewrite skipn_app_le by lia. reflexivity.
-    + destruct (fx_skip fx); [|discriminate].
-      destruct (skippable buf) as [len|] eqn:S; [|discriminate].
-      destruct (skippable_mono buf more len S) as [S' [FB' [_ [L8 LL]]]].
-      rewrite FB', S'. rewrite skipn_app_le by lia. apply IH; [rewrite skipn_length; lia|exact H].
-Qed.
-
-Lemma decode_skip_step : forall fx f b len, from_bytes b = None -> fx_skip fx = true -> skippable b = Some len ->
-  decode fx (S f) b = decode fx f (skipn (N.to_nat len) b).
-Proof. intros fx f b len FB SK S. cbn [decode]. rewrite FB, SK, S. reflexivity. Qed.
-
-(* ... and do not un-skip a skipped one: with the unconsumed rest in front of them they decode the same *)
-Lemma decode_none_mono : forall fx f buf more rest, (length buf <= f)%nat ->
-  decode fx f buf = (None, rest) ->
-  decode fx (f + length more) (buf ++ more) = decode fx (f + length more) (rest ++ more).
-Proof.
-  induction f as [|f IH]; intros buf more rest Hf H.
-  - destruct buf; [|cbn in Hf; lia]. cbn in H. destruct (fx_skip fx); inversion H; reflexivity.
-  - cbn [decode] in H. destruct (from_bytes buf) as [[m' len]|] eqn:FB; [discriminate|].
-    destruct (fx_skip fx) eqn:SK.
-    + destruct (skippable buf) as [len|] eqn:S.
-      * destruct (skippable_mono buf more len S) as [S' [FB' [_ [L8 LL]]]].
-        cbn [plus]. rewrite (decode_skip_step fx (f + length more) (buf ++ more) len FB' SK S'). rewrite skipn_app_le by lia.
-        rewrite (IH (skipn (N.to_nat len) buf) more rest); [|rewrite skipn_length; lia|exact H].
-        assert (LR : (length rest <= length (skipn (N.to_nat len) buf))%nat).
-        { clear -H. revert H. generalize (skipn (N.to_nat len) buf) as b. induction f as [|f IHf]; intros b H.
-          - cbn in H. destruct (from_bytes b) as [[? ?]|]; [discriminate|]. destruct (fx_skip fx); [destruct (skippable b)|]; inversion H; lia.
-          - cbn [decode] in H. destruct (from_bytes b) as [[? ?]|]; [discriminate|].
-            destruct (fx_skip fx); [|inversion H; lia]. destruct (skippable b) as [l|]; [|inversion H; lia].
-            apply IHf in H. rewrite skipn_length in H. lia. }
-        apply decode_fuel; rewrite app_length; rewrite skipn_length in LR; lia.
-      * inversion H; subst. reflexivity.
-    + inversion H; subst. reflexivity.
-Qed.
-
-(* ---- the PDUs a buffer delivers (the Framed loop), as a relation *)
-Inductive parses (fx : fixes) : list N -> list msg -> list N -> Prop :=
-| P_done : forall buf rest, decode fx (length buf) buf = (None, rest) -> parses fx buf [] rest
-| P_step : forall buf m rest ms r,
-    decode fx (length buf) buf = (Some m, rest) -> parses fx rest ms r -> parses fx buf (m :: ms) r.
-
-Lemma parses_det : forall fx buf ms r, parses fx buf ms r -> forall ms' r', parses fx buf ms' r' -> ms = ms' /\ r = r'.
-Proof.
-  intros fx buf ms r P. induction P as [buf rest D|buf m rest ms r D P IH]; intros ms' r' P'.
-  - inversion P'; subst; rewrite D in *; [split; congruence|discriminate].
-  - inversion P' as [? ? D'|? ? ? ? ? D' P'']; subst; rewrite D in D'; [discriminate|].
-    inversion D'; subst. destruct (IH _ _ P'') as [E1 E2]. subst. split; reflexivity.
-Qed.
-
-(* C13 "arbitrary TCP fragmentation": what a buffer delivers when a second segment is
-   appended is what it delivered before followed by what the unconsumed rest plus the
-   new segment deliver.  Hence cutting a byte stream anywhere changes neither the PDU
-   sequence nor the final remainder. *)
-Theorem parses_app : forall fx b1 ms r b2 ms' r',
-  parses fx b1 ms r -> parses fx (r ++ b2) ms' r' -> parses fx (b1 ++ b2) (ms ++ ms') r'.
-Proof.
-  intros fx b1 ms r b2 ms' r' P. revert ms' r'. induction P as [buf rest D|buf m rest ms r D P IH]; intros ms' r' P2.
-  - cbn [app].
-    pose proof (decode_none_mono fx (length buf) buf b2 rest (le_n _) D) as M.
-    rewrite <- app_length in M.
-    inversion P2 as [? ? D2|? ? ? ? ? D2 P2']; subst.
-    + apply P_done. rewrite M. rewrite <- D2. apply decode_fuel; rewrite !app_length; try lia.
-      assert (length rest <= length buf)%nat; [|lia].
-      clear -D. revert D. generalize (length buf) at 1 as f. intro f. revert buf. induction f as [|f IHf]; intros b H.
-      * cbn in H. destruct (from_bytes b) as [[? ?]|]; [discriminate|]. destruct (fx_skip fx); [destruct (skippable b)|]; inversion H; lia.
-      * cbn [decode] in H. destruct (from_bytes b) as [[? ?]|]; [discriminate|].
-        destruct (fx_skip fx); [|inversion H; lia]. destruct (skippable b) as [l|]; [|inversion H; lia].
-        apply IHf in H. rewrite skipn_length in H. lia.
-    + eapply P_step; [|exact P2']. rewrite M. rewrite <- D2. apply decode_fuel; rewrite !app_length; try lia.
-      assert (length rest <= length buf)%nat; [|lia].
-      clear -D. revert D. generalize (length buf) at 1 as f. intro f. revert buf. induction f as [|f IHf]; intros b H.
-      * cbn in H. destruct (from_bytes b) as [[? ?]|]; [discriminate|]. destruct (fx_skip fx); [destruct (skippable b)|]; inversion H; lia.
-      * cbn [decode] in H. destruct (from_bytes b) as [[? ?]|]; [discriminate|].
-        destruct (fx_skip fx); [|inversion H; lia]. destruct (skippable b) as [l|]; [|inversion H; lia].
-        apply IHf in H. rewrite skipn_length in H. lia.
-  - cbn [app]. eapply P_step; [|apply IH; exact P2].
-    pose proof (decode_some_mono fx (length buf) buf b2 m rest (le_n _) D) as M.
-    rewrite <- app_length in M. exact M.
-Qed.
-
-(* ---- progress: a complete, well-framed PDU is never left in the buffer *)
-Definition min_size (ver ty : N) : N :=
-  if (ty =? 0) || (ty =? 1) then 12
-  else if ty =? 4 then 20
-  else if ty =? 6 then 32
-  else if ty =? 7 then (if 1 <=? ver then 24 else 12)
-  else 8.
-
-(* a PDU as RFC 6810/8210 frame it: 8-byte header whose length field is the PDU's
-   size, which is at least the fixed size of its type (any type, used or not) *)
-Definition wellframed (pdu : list N) (ty : N) : Prop :=
-  exists ver s1 s2 l1 l2 l3 l4 body,
-    pdu = ver :: ty :: s1 :: s2 :: l1 :: l2 :: l3 :: l4 :: body
-    /\ be32 [l1; l2; l3; l4] = N.of_nat (length pdu)
-    /\ min_size ver ty <= N.of_nat (length pdu).
-
-Lemma from_bytes_wellframed : forall pdu ty, wellframed pdu ty -> known_type ty = true ->
-  exists m, from_bytes pdu = Some (m, N.of_nat (length pdu)).
-Proof.
-  intros pdu ty [ver [s1 [s2 [l1 [l2 [l3 [l4 [body [E [HL HM]]]]]]]]]] K. subst pdu.
-  unfold from_bytes. rewrite HL. rewrite N.ltb_irrefl. unfold min_size in HM. cbn [length] in HM.
-  destruct (ty =? 0) eqn:T0.
-  { cbn [orb] in HM. destruct body as [|a [|b [|c [|d r]]]]; cbn [length] in HM; try lia. eexists; reflexivity. }
-  destruct (ty =? 1) eqn:T1.
-  { cbn [orb] in HM. destruct body as [|a [|b [|c [|d r]]]]; cbn [length] in HM; try lia. eexists; reflexivity. }
-  cbn [orb] in HM.
-  destruct (ty =? 2) eqn:T2; [eexists; reflexivity|].
-  destruct (ty =? 3) eqn:T3; [eexists; reflexivity|].
-  destruct (ty =? 4) eqn:T4.
-  { destruct body as [|a [|b [|c [|d r]]]]; cbn [length] in HM; try lia.
-    replace ((length r <? 8)%nat) with false by (symmetry; apply Nat.ltb_ge; lia). eexists; reflexivity. }
-  destruct (ty =? 6) eqn:T6.
-  { destruct body as [|a [|b [|c [|d r]]]]; cbn [length] in HM; try lia.
-    replace ((length r <? 20)%nat) with false by (symmetry; apply Nat.ltb_ge; lia). eexists; reflexivity. }
-  destruct (ty =? 7) eqn:T7.
-  { destruct (1 <=? ver) eqn:V.
-    - destruct body as [|a [|b [|c [|d r]]]]; cbn [length] in HM; try lia.
-      replace ((length r <? 12)%nat) with false by (symmetry; apply Nat.ltb_ge; lia). eexists; reflexivity.
-    - destruct body as [|a [|b [|c [|d r]]]]; cbn [length] in HM; try lia. eexists; reflexivity. }
-  destruct (ty =? 8) eqn:T8; [eexists; reflexivity|].
-  destruct (ty =? 10) eqn:T10; [eexists; reflexivity|].
-  exfalso. unfold known_type in K. cbn [existsb] in K. rewrite T0, T1, T2, T3, T4, T6, T7, T8, T10 in K.
-  cbn in K. discriminate.
-Qed.
-
-Lemma skipn_exact {A} : forall (a b : list A), skipn (length a) (a ++ b) = b.
-Proof. intros a b. rewrite skipn_app, skipn_all, Nat.sub_diag. reflexivity. Qed.
-
-(* C13 "makes progress ... including PDU types it does not use": with the fixed codec a
-   complete well-framed PDU at the head of the buffer is always consumed, whatever
-   follows it: a PDU of a used type is delivered and exactly its bytes are removed; a
-   PDU of any other type (Router Key, ...) is dropped and decoding goes on behind it *)
-Theorem decode_wellframed_progress : forall pdu ty more f,
-  wellframed pdu ty -> (length (pdu ++ more) <= f)%nat ->
-  (known_type ty = true /\ exists m, decode fixed f (pdu ++ more) = (Some m, more))
-  \/ (known_type ty = false /\ exists f', f = S f' /\ decode fixed f (pdu ++ more) = decode fixed f' more).
-Proof.
-  intros pdu ty more f WF Hf. destruct (known_type ty) eqn:K.
-  - left. split; [reflexivity|]. destruct (from_bytes_wellframed pdu ty WF K) as [m FB].
-    destruct (from_bytes_mono pdu more m _ FB) as [FB' _]. exists m.
-    destruct f; cbn [decode]; rewrite FB'; rewrite Nat2N.id, skipn_exact; reflexivity.
-  - right. split; [reflexivity|].
-    destruct WF as [ver [s1 [s2 [l1 [l2 [l3 [l4 [body [E [HL HM]]]]]]]]]].
-    destruct f as [|f']; [subst pdu; cbn in Hf; lia|]. exists f'. split; [reflexivity|].
-    assert (S : skippable pdu = Some (N.of_nat (length pdu))).
-    { subst pdu. unfold skippable. rewrite HL, K. cbn [negb andb].
-      replace (8 <=? N.of_nat (length (ver :: ty :: s1 :: s2 :: l1 :: l2 :: l3 :: l4 :: body))) with true by (cbn [length]; lia).
-      rewrite N.leb_refl. reflexivity. }
-    destruct (skippable_mono pdu more _ S) as [S' [FB' _]].
-    rewrite (decode_skip_step fixed f' (pdu ++ more) _ FB' eq_refl S'). rewrite Nat2N.id, skipn_exact. reflexivity.
-Qed.
-
-(* before fix da26e94 (no skipping) a complete Router Key PDU blocks the stream for ever *)
-Lemma decode_pre_refuted_router_key :
-  exists pdu, wellframed pdu 9 /\ forall more f, decode prefix_code f (pdu ++ more) = (None, pdu ++ more).
+(* before the repairs (Rtr.rtr_decode_v0) a complete Router Key PDU stayed in the buffer for ever *)
+Lemma rtr_progress_pre_refuted :
+  exists pdu, rtr_complete pdu
+    /\ forall more, Rtr.rtr_decode_v0 (pdu ++ more) = Stream.DNeed (pdu ++ more).
 Proof.
   exists ([1; 9; 0; 0; 0; 0; 0; 32] ++ repeat 0 24). split.
-  - exists 1, 0, 0, 0, 0, 0, 32, (repeat 0 24). split; [reflexivity|]. split; vm_compute; [reflexivity|discriminate].
-  - intros more f. cbn [app repeat]. destruct f; cbn [decode prefix_code fx_skip]; rewrite from_bytes_unknown by reflexivity; reflexivity.
-Qed.
-
-Example wellframed_example :
-  wellframed [1; 4; 0; 0; 0; 0; 0; 20; 1; 16; 24; 0; 10; 1; 0; 0; 0; 0; 253; 233] 4
-  /\ wellframed ([1; 9; 1; 0; 0; 0; 0; 32] ++ repeat 7 24) 9.
-Proof.
-  split.
-  - exists 1, 0, 0, 0, 0, 0, 20, [1; 16; 24; 0; 10; 1; 0; 0; 0; 0; 253; 233]. split; [reflexivity|]. split; vm_compute; [reflexivity|discriminate].
-  - exists 1, 1, 0, 0, 0, 0, 32, (repeat 7 24). split; [reflexivity|]. split; vm_compute; [reflexivity|discriminate].
+  - exists 32. split; vm_compute; [reflexivity|discriminate].
+  - intro more. lazy beta iota zeta delta [Rtr.rtr_decode_v0 Rtr.rtr_from_bytes Rtr.rd8 Rtr.rd16 Rtr.rd32 app repeat].
+    match goal with |- context [if ?b then _ else _] => destruct b end; reflexivity.
 Qed.
